@@ -71,3 +71,99 @@ Proof.
   split; [rewrite (fstatus_clean _ _ C1); exact S1|].
   unfold fstep in *. rewrite (fstep_clean _ _ C1) in *. rewrite (fstep_clean _ _ C2). exact S2.
 Qed.
+
+(* ---------- the other theorems of VVConv, for the faithful model ---------- *)
+Lemma fresolve_hlv : forall l i,
+  d_hlv (fresolve_remote_wins l i) = d_hlv (resolve_remote_wins l i) /\
+  d_hlv (fresolve_local_wins l i) = d_hlv (resolve_local_wins l i).
+Proof.
+  intros l i. unfold fresolve_remote_wins, fresolve_local_wins, tombstoned, resolve_remote_wins, resolve_local_wins, adopt.
+  destruct (clash_remote l i), (clash_local l i); cbn [d_hlv]; auto.
+Qed.
+
+Theorem fresolution_dominates_both : forall l i, simple (d_hlv l) -> simple (d_hlv i) ->
+  dominates (d_hlv l) (cv (d_hlv i)) = false -> dominates (d_hlv i) (cv (d_hlv l)) = false ->
+  let r := if lww_remote_wins l i then fresolve_remote_wins l i else fresolve_local_wins l i in
+  dominates (d_hlv r) (cv (d_hlv l)) = true /\ dominates (d_hlv r) (cv (d_hlv i)) = true.
+Proof.
+  intros l i Sl Si D1 D2. pose proof (resolution_dominates_both l i Sl Si D1 D2) as H. cbn zeta in *.
+  destruct (fresolve_hlv l i) as [E1 E2]. destruct (lww_remote_wins l i); [rewrite E1 | rewrite E2]; exact H.
+Qed.
+
+(* a transfer between copies one of which already knows the other's current version runs no resolution *)
+Lemma no_clash_known : forall r i l, dominates (d_hlv l) (cv (d_hlv i)) = true -> transfer_clashes r (Some i) (Some l) = false.
+Proof. intros r i l D. unfold transfer_clashes. rewrite D. cbn. now rewrite andb_false_r. Qed.
+
+Theorem fvv_caught_up_transfers_nothing : forall ops d, clash_free ops = true ->
+  let s := frun vsys0 ops in
+  vobs (vdoc_of s VA d) = vobs (vdoc_of s VB d) ->
+  (forall q d', vdoc_of (fstep s (VPull d)) q d' = vdoc_of s q d') /\
+  (forall q d', vdoc_of (fstep s (VPush d)) q d' = vdoc_of s q d') /\
+  (fstatus_of s (VPull d) = VKnown \/ fstatus_of s (VPull d) = VNothing) /\
+  (fstatus_of s (VPush d) = VKnown \/ fstatus_of s (VPush d) = VNothing).
+Proof.
+  intros ops d CF. cbn zeta. rewrite (frun_clean _ _ CF). intros O.
+  pose proof (vv_caught_up_transfers_nothing ops d O) as H.
+  assert (C1 : step_clashes (vrun vsys0 ops) (VPull d) = false).
+  { cbn [step_clashes]. destruct (vdoc_of (vrun vsys0 ops) VA d) as [x|] eqn:X, (vdoc_of (vrun vsys0 ops) VB d) as [y|] eqn:Y; try reflexivity.
+    apply no_clash_known. assert (E : cv (d_hlv y) = cv (d_hlv x)) by (cbn in O; congruence). rewrite E.
+    apply dominates_own_cv. apply (vv_reachable_simple ops VA d x X). }
+  assert (C2 : step_clashes (vrun vsys0 ops) (VPush d) = false) by reflexivity.
+  unfold fstep, fstatus_of. rewrite (fstep_clean _ _ C1), (fstep_clean _ _ C2). exact H.
+Qed.
+
+Theorem fvv_rerun_transfers_nothing : forall ops d, clash_free (ops ++ [VPull d; VPush d]) = true ->
+  let s := frun (frun vsys0 ops) [VPull d; VPush d] in
+  (forall q d', vdoc_of (fstep s (VPull d)) q d' = vdoc_of s q d') /\
+  (forall q d', vdoc_of (fstep s (VPush d)) q d' = vdoc_of s q d') /\
+  (fstatus_of s (VPull d) = VKnown \/ fstatus_of s (VPull d) = VNothing) /\
+  (fstatus_of s (VPush d) = VKnown \/ fstatus_of s (VPush d) = VNothing).
+Proof.
+  intros ops d CF. cbn zeta. rewrite <- frun_app. apply fvv_caught_up_transfers_nothing; [exact CF|].
+  rewrite frun_app. apply flww_converges. exact CF.
+Qed.
+
+Theorem fvv_never_cancelled : forall ops o, clash_free (ops ++ [o]) = true -> fstatus_of (frun vsys0 ops) o <> VCancelled.
+Proof.
+  intros ops o CF. unfold clash_free in CF. rewrite clash_free_app in CF. apply andb_true_iff in CF. destruct CF as [C1 C2].
+  cbn [clash_free_from] in C2. apply andb_true_iff in C2. destruct C2 as [C2 _]. apply negb_true_iff in C2.
+  rewrite (fstatus_clean _ _ C2). rewrite (frun_clean _ _ C1). apply vv_never_cancelled.
+Qed.
+
+Theorem fvv_local_write_fresh : forall ops p d body phys, clash_free ops = true ->
+  let s := frun vsys0 ops in
+  exists x, vdoc_of (fstep s (VEdit p d body phys)) p d = Some x /\
+            d_body x = body /\ d_del x = false /\ src (d_hlv x) = vsrc p /\
+            (forall q d' y e, vdoc_of s q d' = Some y -> listed (d_hlv y) (vsrc p, e) -> e < ver (d_hlv x)).
+Proof.
+  intros ops p d body phys CF. cbn zeta. rewrite (frun_clean _ _ CF). apply vv_local_write_fresh.
+Qed.
+
+Theorem fvv_reachable_consistent : forall ops d x y, clash_free ops = true ->
+  let s := frun vsys0 ops in
+  vdoc_of s VA d = Some x -> vdoc_of s VB d = Some y ->
+  simple (d_hlv x) /\ simple (d_hlv y) /\
+  (cv (d_hlv x) = cv (d_hlv y) -> d_body x = d_body y /\ d_del x = d_del y) /\
+  (dominates (d_hlv x) (cv (d_hlv y)) = true -> dominates (d_hlv y) (cv (d_hlv x)) = true -> cv (d_hlv x) = cv (d_hlv y)).
+Proof.
+  intros ops d x y CF. cbn zeta. rewrite (frun_clean _ _ CF). apply vv_reachable_consistent.
+Qed.
+
+Theorem fvv_documents_independent : forall s o q d, d <> vop_doc o -> vdoc_of (fstep s o) q d = vdoc_of s q d.
+Proof.
+  intros s o q d N. destruct o as [p d0 body phys | p d0 phys | d0 | d0 | d0 body phys]; cbn [vop_doc] in N.
+  - apply (vv_documents_independent s (VEdit p d0 body phys) q d N).
+  - apply (vv_documents_independent s (VDelete p d0 phys) q d N).
+  - unfold fstep, fstep_full, fpull_full. destruct (ftransfer true (vdoc_of s VB d0) (vdoc_of s VA d0)) as [x st]. cbn [fst].
+    rewrite vdoc_set_peer. destruct q; cbn [vside_eqb]; [|reflexivity]. cbn [set_doc p_doc]. unfold updf.
+    destruct (N.eqb_spec d d0); [contradiction|reflexivity].
+  - unfold fstep, fstep_full, fpush_full. destruct (ftransfer false (vdoc_of s VA d0) (vdoc_of s VB d0)) as [x st]. cbn [fst].
+    rewrite vdoc_set_peer. destruct q; cbn [vside_eqb]; [reflexivity|]. cbn [set_doc p_doc]. unfold updf.
+    destruct (N.eqb_spec d d0); [contradiction|reflexivity].
+  - unfold fstep, fstep_full, fpull_full.
+    destruct (ftransfer true (vdoc_of (edit_sys s VA d0 body phys) VB d0) (vdoc_of (edit_sys s VA d0 body phys) VA d0)) as [x st]. cbn [fst].
+    rewrite vdoc_set_peer.
+    pose proof (vv_documents_independent s (VEdit VA d0 body phys) q d N) as E. unfold vstep, vstep_full in E. cbn [fst] in E.
+    destruct q; cbn [vside_eqb]; [|exact E]. cbn [set_doc p_doc]. unfold updf.
+    destruct (N.eqb_spec d d0); [contradiction|]. exact E.
+Qed.
